@@ -36,6 +36,11 @@ CHECKS = {
    note='State = one recv() call keyed by (bytes consumed, output, canonicalised continuation frames); the canonicaliser is validated differentially on every 16th merged hit (traces_validated_against_impl) and a failure falls back to cut-bounded enumeration. Sizes between SIZE and SIZE+slack are not generated.',
    technique='explicit-state model checking of the real server over all segmentations of grammar-generated streams (continuation-merged re-execution) with a reference session automaton',
    design='5/C09'),
+ 'C06': dict(level='exploration', engine='E1-vloop',
+   text='The real StaticSmtpRelay (SmtpRelayClient + Client) delivers over in-memory sockets to the library\'s own SmtpEdge (Server + SmtpSession) with a capturing queue; the real StaticLmtpRelay to a reference LMTP server; the real HttpRelay through http.client bytes and a byte-level WSGI adaptor (environ as gevent.pywsgi builds it) to the real WsgiEdge.  Finite product, completely enumerated: address sweep (9 senders incl. null, quoted local parts with space / > / @ / escaped quote, UTF-8 local part and domain x 26 recipient lists x 2 bodies) and content sweep (3 header blocks incl. 8-bit and folded x 12 bodies incl. dot lines, bare CR/LF, 8-bit, no final CRLF) x 11 SMTP server configurations (each extension dropped, all, none, SIZE=50, AUTH, STARTTLS, HELO fallback, connection re-use, 7-bit conversion with encoder) + LMTP + HTTP.  Oracle: captured envelope equals the sent one (sender, recipients in order, byte-identical content modulo final CRLF), client extensions == advertised, reported reply == the edge\'s, what cannot be carried is refused permanently and never altered.',
+   note='In-memory sockets and fake TLS; an 8-bit header value without 8BITMIME is not judged; with a binary encoder only addresses and 7-bit-ness are judged.',
+   technique='exhaustive enumeration of an envelope grammar x server configurations through the real client and the real edge, end-to-end equality oracle',
+   design='5/C06'),
  'C07': dict(level='model_checking', engine='E2-seq',
    text='Breadth-first search to closure over the real SmtpEdge+SmtpSession+Server driven one client event at a time (31 events incl. malformed variants x validator verdicts accept/450/550/421 for each callback reached, 4 banner verdicts, 12 configurations auth x TLS x SIZE); a state is the event history replayed on fresh objects, canonicalised from the real session flags, extension set and envelope under construction, paired with the state of a reference automaton that judges every transition (reply classes, callback order and arguments, hand-off envelope, session end on 221/421).  The state merge is cross-checked by a two-representative differential check and by exploring all event sequences up to depth 2-3 (4 in thorough) without merging.',
    note='One event per recv() (segmentation is C09); STARTTLS with an open transaction and AUTH PLAIN in clear text are left to C08; transparent fake TLS, fake PTR lookup, recording queue; commands with non-UTF-8 arguments only need an error reply and no callback.',
